@@ -179,20 +179,15 @@ impl Gen {
             25..=26 => {
                 let w = self.rng.gen_range(1..=2);
                 let h = self.rng.gen_range(1..=2);
-                // an array formula never overlaps the cells it reads: a self-referential array has no defined
-                // value in this engine (values depend on the evaluation history; see DESIGN.md section 11.1)
+                // An array formula never covers a cell that an array formula reads (A1:B2, B1:C1, E5:F6): an array
+                // over its own input has no stable value, and an array that reads a member of another array is
+                // evaluated wrongly once (finding C07|second-evaluation-differs|array-reads-array, reported by the
+                // Recalc family); either would surface here under the signature of whatever operation comes next.
                 let overlaps = |r1: i32, c1: i32, r2: i32, c2: i32| !(r + h - 1 < r1 || r > r2 || c + w - 1 < c1 || c > c2);
-                let mut texts: Vec<&str> = vec!["={1,2;3,4}"];
-                if !overlaps(1, 1, 2, 2) {
-                    texts.push("=A1:B2*2");
-                    texts.push("=SUM(A1:A2)");
+                if overlaps(1, 1, 2, 3) || overlaps(5, 5, 6, 6) {
+                    return json!({"op": "input", "s": s, "r": r, "c": c, "text": *self.pick(&["=SUM(A1:B2)", "7", "=E5*2"])});
                 }
-                if !overlaps(1, 2, 1, 3) {
-                    texts.push("=B1:C1+1");
-                }
-                if !overlaps(5, 5, 6, 6) {
-                    texts.push("=E5:F6*2");
-                }
+                let texts: Vec<&str> = vec!["={1,2;3,4}", "=A1:B2*2", "=SUM(A1:A2)", "=B1:C1+1", "=E5:F6*2"];
                 json!({"op": "array", "s": s, "r": r, "c": c, "w": w, "h": h, "text": *self.pick(&texts)})
             }
             27..=29 => Self::merge(self.small_area(um), json!({"op": *self.pick(&["clear_all", "clear_contents", "clear_formatting"])})),
